@@ -465,6 +465,15 @@ func runEntry(l *loaded, e *EntrySpec, pl *pool, maxPaths, nsamples int, outDir 
 				}
 				for _, v := range pr.Violations {
 					key := v.Kind + "|" + v.Label + "|" + v.Site
+					// distinguish call sites: up to four innermost non-harness frames
+					nfr := 0
+					for _, fr := range v.Trace {
+						if nfr >= 4 || strings.Contains(fr, ".vh_") {
+							break
+						}
+						key += "|" + fr
+						nfr++
+					}
 					if ex, ok := viols[key]; ok {
 						ex.Count++
 					} else {
